@@ -36,15 +36,24 @@ class Spec:
             ctx.assume(L >= 1)
             ctx.assume(L <= 60000)
         self.tb = [F(0), F(8)]
+        self.meter = [4, 4]
         if variant == "a":
             self.hits = [(0, F(0)), (k - 1, F(5, 2)), (1 % k, F(9)), (0, F(12))]
             self.holds = [(2 % k, F(1), F(7, 2)), (k - 1, F(6), F(10))]
         elif variant == "b":
             self.hits = [(k - 1, F(4)), (0, F(4) + F(1, 4)), (0, F(13, 2))]
             self.holds = [(1 % k, F(0), F(2))]
-        else:
+        elif variant == "c":
             self.hits = [(0, F(1)), (1 % k, F(1)), (k - 1, F(8))]
             self.holds = []
+        elif variant == "d":  # a long gap between objects across the second tempo point; the osu source gives its first point 3 beats per measure
+            self.tb = [F(0), F(9)]
+            self.hits = [(0, F(0)), (k - 1, F(3)), (1 % k, F(14)), (0, F(18))]
+            self.holds = []
+            self.meter = [3, 4]
+        else:  # "e": one object in every lane
+            self.hits = [(c, F(c, 2)) for c in range(k)]
+            self.holds = [(k - 1, F(9), F(11))]
 
     def t(self, p):
         if p <= self.tb[1]:
@@ -67,7 +76,7 @@ def src_osu(ctx, sp):
     for c, p, e in sp.holds:
         x = int((512 * c + 256) // sp.keys)
         objs.append("%d,192,%s,128,0,%s:0:0:0:0:" % (x, tk(sp.t(p)), tk(sp.t(e))))
-    tps = ["%s,%s,4,1,0,50,1,0" % (tk(sp.t(sp.tb[i])), tk(sp.L[i])) for i in range(2)]
+    tps = ["%s,%s,%d,1,0,50,1,0" % (tk(sp.t(sp.tb[i])), tk(sp.L[i]), sp.meter[i]) for i in range(2)]
     text = c01.HEAD % dict(preview="100", title="Song", version="Hard", keys=sp.keys, samples="", timing="\n".join(tps), objects="\n".join(objs))
     return OsuMap.read(text.split("\n"))
 
@@ -259,8 +268,30 @@ def obligations(tier, seed):
             for variant in (("a",) if quick and keys != 4 else ("a", "b", "c")):
                 if quick and variant == "c" and (src, tgt) not in (("osu", "sm"), ("sm", "bms"), ("qua", "osu")):
                     continue
-                obs.append(Obligation("C09/%s-to-%s/K%d/%s" % (src, tgt, keys, variant), partial(ob_pipeline, src, tgt, keys, variant),
-                                      bound="source %s file -> %s -> target %s file; %d keys, chart variant %s (objects on the quarter-beat grid, tempo points at beats 0 and 8), "
-                                            "symbolic beat lengths (bpm in [1, 60000])%s" % (src, CONV[(src, tgt)], tgt, keys, variant, "" if src in ("bms", "o2j") else " and symbolic start time"),
-                                      max_paths=3000, timeout_s=300))
+                obs.append(_ob(src, tgt, keys, variant))
+    # 3-key charts (osu, StepMania dance-threepanel, BMS), 16-lane charts (osu <-> BMS BME), one object per lane
+    for src, tgt in PAIRS:
+        if "qua" not in (src, tgt) and src != "o2j":
+            obs.append(_ob(src, tgt, 3, "e"))
+            if not quick:
+                obs.append(_ob(src, tgt, 3, "a"))
+        if (src, tgt) in (("osu", "bms"), ("bms", "osu")):
+            obs.append(_ob(src, tgt, 16, "e"))
+            if not quick:
+                obs.append(_ob(src, tgt, 10, "e"))
+        elif src != "o2j" and not quick:
+            for keys in (4, 7, 8):
+                if not (keys == 8 and "qua" in (src, tgt) and False):
+                    obs.append(_ob(src, tgt, keys, "e"))
+    # an osu source whose first timing point has 3 beats per measure (formats without measure lengths must not inherit it)
+    for tgt in ("sm", "qua"):
+        for keys in ((4,) if quick else (4, 7)):
+            obs.append(_ob("osu", tgt, keys, "d"))
     return obs
+
+
+def _ob(src, tgt, keys, variant):
+    return Obligation("C09/%s-to-%s/K%d/%s" % (src, tgt, keys, variant), partial(ob_pipeline, src, tgt, keys, variant),
+                      bound="source %s file -> %s -> target %s file; %d keys, chart variant %s (objects on the quarter-beat grid, tempo points at beats 0 and 8), "
+                            "symbolic beat lengths (bpm in [1, 60000])%s" % (src, CONV[(src, tgt)], tgt, keys, variant, "" if src in ("bms", "o2j") else " and symbolic start time"),
+                      max_paths=3000, timeout_s=300)
